@@ -255,6 +255,19 @@ Proof.
   - left. split; [Lra.lra | reflexivity].
 Qed.
 
+(* ---- walk-off closed form for ANY medium (biaxial included), away from the optic axes (exact discriminant > 0), any unit beam:
+   -(1/n) dn/dtheta = 1/2 n^2 y',  y' = (b' -/+ (2 b b' - 4 c')/(2 sqrt D))/2 with b', c' explicit in the crystal-frame direction
+   and its theta-derivative (Proofs/C02_walkoff_biaxial.v).  Exact derivative; the code's central difference is within
+   M h^2/(6 n) of it by C02_walkoff_truncation_partial (no explicit M is proved for the biaxial index). *)
+From SpdVerif Require Import Proofs.C02_walkoff_biaxial.
+
+Theorem C02_walkoff_biaxial_partial : forall phi nx ny nz d p t,
+  0 < nx -> 0 < ny -> 0 < nz -> unit_vec d ->
+  0 < fdisc (inv2 nx) (inv2 ny) (inv2 nz) (vx (sfun phi d t) * vx (sfun phi d t)) (vy (sfun phi d t) * vy (sfun phi d t))
+            (vz (sfun phi d t) * vz (sfun phi d t)) ->
+  walkoff_exact (fun u => index_model u phi nx ny nz d p) t = walkoff_biaxial_closed phi nx ny nz d p t.
+Proof. exact (fun phi nx ny nz d p t Hx Hy Hz Hd => walkoff_biaxial phi nx ny nz d Hx Hy Hz Hd p t). Qed.
+
 Print Assumptions C02_disc_nonneg.
 Print Assumptions C02_roots_of_fresnel.
 Print Assumptions C02_interlace.
@@ -283,3 +296,4 @@ Print Assumptions C02_walkoff_1e6_real.
 Print Assumptions C02_walkoff_1e6_real_pump.
 Print Assumptions C02_walkoff_1e6_real_crystal.
 Print Assumptions C02_walkoff_third_derivative_bound.
+Print Assumptions C02_walkoff_biaxial_partial.
